@@ -1296,7 +1296,11 @@ class Machine:
             return z3.BoolVal(True)
         if isinstance(v, VOpt):
             return v.sort.is_none(v.term)
-        return z3.BoolVal(False)
+        for h in getattr(self.world, "none_hooks", []):
+            r = h(self, v)
+            if r is not None:
+                return r
+        return z3.BoolVal(False)   # values of the other sorts denote objects (where None is possible the sort is Opt[...] or an area hook says so)
 
     def compare(self, op: ast.cmpop, a: V, b: V) -> Any:
         if isinstance(op, (ast.Is, ast.IsNot)):
